@@ -568,6 +568,47 @@ theorem header_bind_single (pre a : Str)
   rw [hjr]
   simp only [toSnakeCase_strip, hb, bind_is_no_alias, bind_is_column, if_true]
 
+/-- **header_bind_single_jr.**  The single-colon spelling of a `jr:` attribute, `<bind> : jr : <name>`
+    (`bind:jr:constraintMsg`, any spacing around the tokens), is repaired to `(bind, "jr:" ++ strip name)` —
+    the one case in which `:` is both delimiter and part of the attribute name. -/
+theorem header_bind_single_jr (pre m a : Str)
+    (hp : ∀ c ∈ pre, c ≠ ':') (hb : toSnakeCase pre = "bind".toList)
+    (hmc : ∀ c ∈ m, c ≠ ':') (hmj : strip m = "jr".toList) (ha : ∀ c ∈ a, c ≠ ':') :
+    processHeader false surveyAliases surveyColumns (pre ++ ':' :: (m ++ ':' :: a)) =
+      some (.str "bind".toList, ["bind".toList, "jr:".toList ++ strip a]) := by
+  have hm : ':' ∈ pre ++ ':' :: (m ++ ':' :: a) := by simp
+  obtain ⟨b1, b2⟩ := colon_header_not_column _ hm
+  have hpj : strip pre ≠ "jr".toList := by
+    intro e
+    have : toSnakeCase pre = toSnakeCase "jr".toList := by rw [← toSnakeCase_strip, e]
+    rw [hb] at this
+    exact snake_jr_ne_bind this.symm
+  have hhead : (m ++ ':' :: a).head? ≠ some ':' := by
+    cases m with
+    | nil => exact absurd hmj (by decide)
+    | cons x xs =>
+      have : x ≠ ':' := hmc x (List.mem_cons_self ..)
+      simpa using this
+  have hinf : isInfix "::".toList (pre ++ ':' :: (m ++ ':' :: a)) = false := by
+    rw [isInfix_dcolon_step _ hhead pre hp, isInfix_dcolon_single a ha m hmc]
+  have hsplit : splitOnChar ':' (pre ++ ':' :: (m ++ ':' :: a)) = [pre, m, a] := by
+    rw [splitOnChar_prefix' _ pre hp, splitOnChar_prefix a ha m hmc]
+  unfold processHeader
+  rw [b1]
+  simp only [Bool.false_eq_true, if_false]
+  rw [b2]
+  simp only [Bool.false_eq_true, if_false]
+  rw [hinf]
+  simp only [Bool.or_false, Bool.false_eq_true, if_false, hsplit, List.map_cons, List.map_nil, hmj]
+  have hjr : jrFix [strip pre, "jr".toList, strip a] = some [strip pre, "jr:".toList ++ strip a] := by
+    unfold jrFix
+    rw [if_neg hpj]
+    unfold jrFix
+    rw [if_pos rfl]
+    rfl
+  rw [hjr]
+  simp only [toSnakeCase_strip, hb, bind_is_no_alias, bind_is_column, if_true]
+
 /-! ## noninterference on raw cells -/
 
 /-- `c'` is an edit of the raw row `c` that keeps its place in the structure: whatever the row number
@@ -689,6 +730,11 @@ example :
         | .ok ([.qs [q1]], .off), .ok ([.qs [q2]], .off) => q1.name == q2.name && q1.name == s "q"
         | _, _ => false)
      | _ => false) = true := by
+  decide +kernel
+
+example : (∀ c ∈ s " jr ", c ≠ ':') ∧ strip (s " jr ") = s "jr" ∧
+    processHeader false surveyAliases surveyColumns (s "Bind : jr :constraintMsg") =
+      some (.str (s "bind"), [s "bind", s "jr:constraintMsg"]) := by
   decide +kernel
 
 /-- `header_to_bind`: a spelling with case and spacing noise -/
